@@ -146,6 +146,7 @@ func (w *World) checkTransactions(l *LState, pit *time.Time, pageSize uint64, or
 		if d := pcvDiff(g.PostCommitVolumes, l.M.PostCommitAt(m)); d != "" {
 			w.V("C03", "%s: transaction %d postCommitVolumes: %s\nhistory:\n  %s", what, m.ID, d, l.History())
 		}
+		w.checkRenderedTx(l, g, what)
 		if effective {
 			if d := pcvDiff(g.PostCommitEffectiveVolumes, l.M.PostCommitEffectiveAt(m)); d != "" {
 				w.V("C04", "%s: transaction %d postCommitEffectiveVolumes: %s\nhistory:\n  %s", what, m.ID, d, l.History())
